@@ -31,6 +31,7 @@ func c12(c *Ctx) {
 	c12R6(c)
 	c12R7(c)
 	c12R8(c)
+	c12R9(c)
 }
 
 func isResChSend(ins ssa.Instruction) bool {
